@@ -383,7 +383,7 @@ def run(case):
         com_t = np.array(ndi.center_of_mass(truth))
         d = float(np.abs(com_v - com_t).max())
         case.maxobs(f"max_com_err_order{order}", d)
-        tol = TOLERANCES["com_px"] if order else 0.5
+        tol = TOLERANCES["com_px"] if order else 0.52   # nearest-neighbour pasting: half a voxel by construction (0.499 seen)
         case.check(d <= tol, "general pose: centre of mass of the pasted particle is off",
                    _mech_even(shape) if 0.2 < np.abs(com_v - com_t).max() < 0.8 else None,
                    err=d, com_err=(com_v - com_t), shape=shape, order=order, scale=scale)
